@@ -349,7 +349,27 @@ const c02ChainRule = "REST chain as built by engine.bindRoutes, observed with ht
 func TestVerifC02Chain(t *testing.T) {
 	m := vk.New(t, "C02", c02ChainRule)
 	defer m.Done()
-	c02RunBatches(m, 0, vk.N(60, 1500), 6, false)
+	n := vk.N(60, 1500)
+	c02RunBatches(m, 0, n, 6, false)
+	c02ErrModeBatches(m, n, vk.N(2, 20), false)
+}
+
+// c02ErrModeBatches: the same batches with a process-wide httpx error handler
+// installed (SetErrorHandler / SetErrorHandlerCtx). The timeout branch renders its
+// answer through httpx.ErrorCtx: a business error handler must not turn the
+// 503 / 499 into its own answer. Global state: these batches run one at a time and
+// the default is restored afterwards.
+func c02ErrModeBatches(m *vk.M, first, per int, racing bool) {
+	for i, mode := range []string{"plain", "ctx"} {
+		if m.ViolCount() > 0 {
+			return
+		}
+		mode := mode
+		c02WithErrMode(mode, func() {
+			c02RunBatches(m, first+i*per, per, 1, racing)
+		})
+		m.Count("errorhandler_"+mode+"_batches", int64(per))
+	}
 }
 
 func TestVerifC02RaceChain(t *testing.T) {
@@ -366,6 +386,7 @@ func TestVerifC02RaceChain(t *testing.T) {
 		m.Note("failpoints active: %s", fp)
 	}
 	c02RunBatches(m, base, n, 4, true)
+	c02ErrModeBatches(m, base+n, vk.N(1, 6), true)
 }
 
 var _ = context.Background
